@@ -33,6 +33,9 @@ pub struct Txn {
     /// amount in exchanged rate.
     transferred_amount: Option<OwnedAmount>,
 
+    /// True if transferred_amount is computed out of amount and charges.
+    transferred_amount_computed: bool,
+
     /// Amount of the transaction, applied for the associated account.
     /// For bank account, positive means deposit, negative means withdraw.
     /// For credit card account, negative means expense, positive means payment to the card.
@@ -74,6 +77,7 @@ impl Txn {
             dest_account: None,
             clear_state: None,
             transferred_amount: None,
+            transferred_amount_computed: false,
             amount,
             rates: HashMap::new(),
             balance: None,
@@ -171,15 +175,21 @@ impl Txn {
                 "different commodity charge not supported",
             ));
         }
-        if self.transferred_amount.is_some() {
+        if self.transferred_amount.is_some() && !self.transferred_amount_computed {
             return Err(ImportError::Unimplemented(
                 "already set transferred_amount isn't supported",
             ));
         }
+        // accumulates when another charge was already taken into account.
+        let base = self
+            .transferred_amount
+            .as_ref()
+            .map_or(self.amount.value, |x| x.value);
         self.transferred_amount(OwnedAmount {
-            value: self.amount.value + amount.value,
+            value: base + amount.value,
             commodity: amount.commodity.clone(),
         });
+        self.transferred_amount_computed = true;
         self.charges.push(Charge {
             payee: to_single_line(payee),
             amount,
